@@ -182,6 +182,11 @@ func init() {
 		n := int32(64 * len(bm))
 		return L(I32s(c13IterNext(bm, 0, n)), I32s(c13IterPrev(bm, 0, n)))
 	}
+	Exec["bitmap.Slice/walk"] = func(a []V) string {
+		r := bitmap.Slice(c13Unrle(a[0]), a[1].I32(), a[2].I32())
+		n := int32(64 * len(r))
+		return L(I32s(c13IterNext(r, 0, n)), I32s(c13IterPrev(r, 0, n)))
+	}
 	Exec["bitmap.Next/count"] = func(a []V) string {
 		bm, tr, i, e := c13Unrle(a[0]), a[1].Bool(), a[2].I32(), a[3].I32()
 		idx := bitmap.IndexRank64(bm, tr)
@@ -604,6 +609,9 @@ func genC13w(g *Gen) {
 		}
 		if e < n {
 			g.Do("bitmap.Next/count", L(w, B(g.R.Bool()), Int(i), Int(e)), pre("C/"))
+		}
+		if e-i <= 64*700 { // Slice's model copies bit by bit, reading a word per bit
+			g.Do("bitmap.Slice/walk", L(w, Int(i), Int(e)), pre("S/"))
 		}
 	}
 	// one-word bitmaps x all boundary ranges
